@@ -20,7 +20,12 @@ def sql_text(v):
 
 
 def sql_error(kind='SqliteFailure', data=None):
-    return Opaque('rusqlite::Error', (kind, data))
+    """rusqlite::Error value; kind 'ConstraintViolation' etc. are SqliteFailure codes"""
+    from .core import none as _none
+    if kind in ('SqliteFailure', 'ConstraintViolation', 'DatabaseBusy', 'DatabaseLocked', 'SystemIoFailure', 'DiskFull'):
+        code = kind if kind != 'SqliteFailure' else 'SystemIoFailure'
+        return Enum('rusqlite::Error', 'SqliteFailure', [Struct('Error', [Enum('ErrorCode', code), 0]), _none()])
+    return Enum('rusqlite::Error', kind, [data] if data is not None else [])
 
 
 def to_sql_value(eng, v):
@@ -181,7 +186,7 @@ def from_sql(eng, cell, ty, sp):
             vr = Enum('ValueRef', 'Integer', [cell])
         r = eng.run_body(eng.body(nm), [vr])
         if r.var == 'Err':
-            return err(Opaque('rusqlite::Error', ('FromSqlConversionFailure', r.f[0])))
+            return err(Enum('rusqlite::Error', 'FromSqlConversionFailure', [0, Opaque('Type'), r.f[0]]))
         return r
     raise Unsupported('FromSql for %s' % ty)
 
